@@ -43,6 +43,8 @@ var c19Seeds = []string{
 	"##!> assemble\n##!> include marks -- @ \"\" ~ \"\"\n##!=>\nb\n##!<\n", "##!=> \x0b\n", "##!=< \x0b\n", "a\n##!=< \u00a0\n##!=> \u00a0\n", "##!=> \u0085 \n", "##!> assemble\n  a\n  ##!=< \x0b \x0b\n  ##!=> \u2003\n##!<\n", "##!=>\t\x0c\n", "##!=< \x1c\n##!=> \x1c\n",
 	// a bare marker prefix that comes into being after the parser has looked at the lines
 	"##!> define marker ##!\n{{marker}}\nfoo\n", "##!> define m ##!>\n{{m}}\n", "##!> define m ##!<\nfoo\n{{m}}\n", "##!> define m ##!=>\na\n{{m}}\nb\n", "##!^ ##!\nfoo\n", "##!$ ##!\nfoo\nbar\n", "##!> include hashbang\n", "##!> define m ##\n{{m}}!\n",
+	// long names of characters that take more than one byte (messages that quote and shorten their input)
+	"##!=> " + strings.Repeat("é", 60) + "\n", "a\n##!=< " + strings.Repeat("日本", 40) + "\n##!=> " + strings.Repeat("日", 79) + "x\n", "##!> assemble\n  (unclosed\n  ##!=> " + strings.Repeat("ß", 70) + "\n##!<\n", "##!> include " + strings.Repeat("ü", 120) + "\n", "##!> frob" + strings.Repeat("é", 100) + "\n", "##!+ " + strings.Repeat("é", 101) + "\n",
 	// several exclude files read with the many definitions of one include file
 	"##!> include-except manydefs b a name ok\n", "##!> include-except manydefs b a\n##!> include-except manydefs name ok b\n", "##!> include manydefs\n##!> include-except manydefs a b name\n",
 	// include cycles with a fan-out of two and more
